@@ -333,3 +333,26 @@ func (p *Prog) indexCalls() {
 		}
 	}
 }
+
+// realCallers returns the call sites of fn in source functions, looking
+// through synthetic promotion/bound-method wrappers.
+func (p *Prog) realCallers(fn *ssa.Function) []ssa.CallInstruction {
+	var out []ssa.CallInstruction
+	seen := map[*ssa.Function]bool{}
+	var rec func(f *ssa.Function)
+	rec = func(f *ssa.Function) {
+		if seen[f] {
+			return
+		}
+		seen[f] = true
+		for _, ci := range p.callersOf[f] {
+			if par := ci.Parent(); par.Synthetic != "" {
+				rec(par)
+				continue
+			}
+			out = append(out, ci)
+		}
+	}
+	rec(fn)
+	return out
+}
